@@ -184,14 +184,18 @@ PROVED, for EVERY tree (sibling names need not even be distinct), matcher, callb
 * pattern tests per child (`pattern_tests_bounded`): `checkEntriesCost` is the entry loop of `CheckChildForTraversal` with a counter of the
   entries it examines (one clause test each); it computes the same state as `checkEntries`, and the counter is at most the number of
   entries taking part at that level, which is at most `pmNumEntries pm`.
+* the TOTAL number of pattern tests of one traversal (`traversal_tests_bounded`): `travAuxC` (WorkBoundProofs.lean) is the whole traversal
+  — `checkEntries`, `checkChild`, `travKids`, `lookupElems`, `travLookups`, `travLevel`, `travAux` — returning (result, number of entries
+  examined by the entry loops of `CheckChildForTraversal`, the recursive calls included); its result is the real traversal's, and the count
+  is at most (nodes below the root within `fuel`) × `pmNumEntries pm`, on the child-iteration path and on the literal-lookup path alike
+  (each child is handed to `CheckChildForTraversal` at most once per traversal, and one hand-over examines at most every entry once).
+  Attained: one pattern `*/*/*` on the three-level tree (5 tests), and on the literal-lookup path 5 nodes × 2 entries = 10 tests (`#eval`;
+  `decide` cannot run literal clauses).  One step of the loop is counted by the condition `descends` (= the step makes the recursive call).
 * in every reachable state (`RReach`, ids pairwise distinct by `session_ids_distinct` of C05) the hypothesis of `send_deliveries_bounded` /
   `route_deliveries_bounded` is discharged (`cmd_deliveries_bounded_reach`, `route_deliveries_bounded_reach`).
 
 NOT proved here (stays with the harness: `wping` witness after every hostile command, 20 s alarm per op, ASan/UBSan): wall-clock time; the
-cost of one pattern test (`regcomp`/`regexec` for a clause, C15) and of one filter evaluation (C14); the TOTAL number of pattern tests of
-one traversal (expected: (nodes below the root) × `pmNumEntries pm`, since each child is handed to `CheckChildForTraversal` at most once per
-level — the per-child factor is `pattern_tests_bounded`, the per-node factor is the argument of `traversal_visits_bounded`, but the
-product needs a cost-instrumented copy of the whole traversal and is not stated as a theorem); the multi-pattern re-check `MatchesNode`
+cost of one pattern test (`regcomp`/`regexec` for a clause, C15) and of one filter evaluation (C14); the multi-pattern re-check `MatchesNode`
 (at most one per child, `pmMatchesPath` over one depth group); memory.
 -/
 
@@ -413,5 +417,63 @@ example : pmNumEntries exWbRev = 3 ∧ pmNumEntries exWbAll = 3 ∧
     (checkEntriesCost { pm := exWbAll, useFilters := true, rootDepth := 0, cb := cbContinue }
       (travAux { pm := exWbAll, useFilters := true, rootDepth := 0, cb := cbContinue } 1)
       (.mk [120] none [] [] 0 []) [[104], [115], [120]] 2 none (activeEntries exWbAll 2) 0 {}).2 = 1 := by decide
+
+/-! ### total pattern tests of one traversal -/
+
+/-- the instrumented traversal, any arguments: same result, and at most (nodes below `node` within `fuel`) × (entries of the matcher) tests -/
+theorem traversal_tests_twin (ctx : TCtx) (fuel : Nat) (node : Node) (names : Visit) (depth : Nat) :
+    (travAuxC ctx fuel node names depth).1 = travAux ctx fuel node names depth ∧
+    (travAuxC ctx fuel node names depth).2 ≤ (descendants fuel node names).length * pmNumEntries ctx.pm := by
+  rw [wb_descendants_length]
+  exact ⟨wb_travAuxC_fst ctx fuel node names depth, wb_travAuxC_cost ctx fuel node names depth⟩
+
+/-- **Bounded number of pattern tests.**  Any matcher, callback, tree, root depth, fuel: the instrumented traversal records exactly the
+    visits of `doTraversal`, and examines at most (nodes strictly below the root within `fuel`) × `pmNumEntries pm` pattern entries. -/
+theorem traversal_tests_bounded (pm : PM) (useFilters : Bool) (rd : Nat) (cb : Visit → Nat → Node → Bool × Int) (node : Node)
+    (fuel : Nat) :
+    (travAuxC { pm := pm, useFilters := useFilters, rootDepth := rd, cb := cb } fuel node [] rd).1.1 =
+      doTraversal pm useFilters rd cb node fuel ∧
+    (travAuxC { pm := pm, useFilters := useFilters, rootDepth := rd, cb := cb } fuel node [] rd).2 ≤
+      (descendants fuel node []).length * pmNumEntries pm ∧
+    (travAuxC { pm := pm, useFilters := useFilters, rootDepth := rd, cb := cb } fuel node [] rd).2 + pmNumEntries pm ≤
+      node.size * pmNumEntries pm := by
+  obtain ⟨h1, h2⟩ := traversal_tests_twin { pm := pm, useFilters := useFilters, rootDepth := rd, cb := cb } fuel node [] rd
+  refine ⟨by rw [h1]; rfl, h2, ?_⟩
+  have h3 := (traversal_visits_bounded pm useFilters rd cb node fuel).2
+  have h4 : ((descendants fuel node []).length + 1) * pmNumEntries pm ≤ node.size * pmNumEntries pm := Nat.mul_le_mul_right _ h3
+  rw [Nat.add_mul, Nat.one_mul] at h4
+  exact Nat.le_trans (Nat.add_le_add_right h2 _) h4
+
+/-- the traversal from the global root of a server: tests ≤ (nodes below the root) × (entries), fewer than (nodes of the tree) × (entries) -/
+theorem travGlobal_tests_bounded (sv : Server) (pm : PM) (useFilters : Bool) (cb : Visit → Nat → Node → Bool × Int) :
+    (travAuxC { pm := pm, useFilters := useFilters, rootDepth := 0, cb := cb } fuelDepth sv.root [] 0).1.1 =
+      travGlobal sv pm useFilters cb ∧
+    (travAuxC { pm := pm, useFilters := useFilters, rootDepth := 0, cb := cb } fuelDepth sv.root [] 0).2 ≤
+      (descendants fuelDepth sv.root []).length * pmNumEntries pm ∧
+    (travAuxC { pm := pm, useFilters := useFilters, rootDepth := 0, cb := cb } fuelDepth sv.root [] 0).2 + pmNumEntries pm ≤
+      sv.root.size * pmNumEntries pm :=
+  traversal_tests_bounded pm useFilters 0 cb sv.root fuelDepth
+
+/-- the traversal from a session's own node: tests ≤ (nodes below the session node) × (entries) ≤ (nodes of the whole tree) × (entries) -/
+theorem travSession_tests_bounded (sv : Server) (s : Sess) (pm : PM) (cb : Visit → Nat → Node → Bool × Int) (n : Node)
+    (hn : getNode sv (sessNames s) = some n) :
+    travSession sv s pm cb =
+      (travAuxC { pm := pm, useFilters := true, rootDepth := 2, cb := cb } fuelDepth n [] 2).1.1.map (fun v => sessNames s ++ v) ∧
+    (travAuxC { pm := pm, useFilters := true, rootDepth := 2, cb := cb } fuelDepth n [] 2).2 + pmNumEntries pm ≤
+      sv.root.size * pmNumEntries pm := by
+  obtain ⟨h1, _, h3⟩ := traversal_tests_bounded pm true 2 cb n fuelDepth
+  refine ⟨by unfold travSession; rw [hn, h1], ?_⟩
+  exact Nat.le_trans h3 (Nat.mul_le_mul_right _ (wb_getNode_size hn))
+
+/-- non-vacuity on the three-level tree (5 nodes below the root): one pattern `*/*/*`: 5 tests = 5 × 1 (attained); `*`, `*/*`, `*/*/*`: 8;
+    two `*/*/*` then `*`: 11; nine patterns: 18 — within 5 × 3, 5 × 3, 5 × 9; and the instrumented traversal returns the real visits -/
+example :
+    (travAuxC { pm := C05.exPM3, useFilters := true, rootDepth := 0, cb := cbContinue } 4 C05.exSrvTree [] 0).2 = 5 ∧
+    pmNumEntries C05.exPM3 = 1 ∧
+    (travAuxC { pm := exWbAll, useFilters := true, rootDepth := 0, cb := cbContinue } 4 C05.exSrvTree [] 0).2 = 8 ∧
+    (travAuxC { pm := exWbRev, useFilters := true, rootDepth := 0, cb := cbContinue } 4 C05.exSrvTree [] 0).2 = 11 ∧
+    (travAuxC { pm := exWbMany, useFilters := true, rootDepth := 0, cb := cbContinue } 4 C05.exSrvTree [] 0).2 = 18 ∧
+    (travAuxC { pm := exWbAll, useFilters := true, rootDepth := 0, cb := cbContinue } 4 C05.exSrvTree [] 0).1.1 =
+      doTraversal exWbAll true 0 cbContinue C05.exSrvTree 4 := by decide
 
 end Muscle.Props.C07
